@@ -644,10 +644,15 @@ def c05():
     for p in progs:
         rr = recs[p.key]["recs"]
         k = len(rr)
-        p.cases = [{"page": 1000, "codec": CODECS[(k + ck.seed) % 3], "poff": (ck.seed + k) % 16, "ops": ops_of("a" * k + "w", rr), "reads": [{"mode": "plain"}]},
-                   {"page": 2, "codec": CODECS[(k + 1 + ck.seed) % 3], "poff": (ck.seed + 2 * k) % 16,
-                    "ops": ops_of("a" * (k - k // 2) + "w" + "a" * (k // 2) + ("w" if k // 2 else ""), rr), "reads": [{"mode": "plain"}]}]
-        ck.add("values_tried", 2 * k)
+        # two layouts, and two value assignments that differ in every leaf (pool offsets p0 and p0+1: both booleans, zero and
+        # non-zero numbers, empty and non-empty strings are tried for every token) - some generator defects depend on the values
+        p0 = (ck.seed + k) % 16
+        p.cases = [{"page": 1000, "codec": CODECS[(k + ck.seed) % 3], "poff": p0, "ops": ops_of("a" * k + "w", rr), "reads": [{"mode": "plain"}]},
+                   {"page": 2, "codec": CODECS[(k + 1 + ck.seed) % 3], "poff": p0 + 1,
+                    "ops": ops_of("a" * (k - k // 2) + "w" + "a" * (k // 2) + ("w" if k // 2 else ""), rr), "reads": [{"mode": "plain"}]},
+                   {"page": 3, "codec": CODECS[(k + 2 + ck.seed) % 3], "poff": p0 + 3, "ops": ops_of("a" * k + "w", rr), "reads": [{"mode": "plain"}]},
+                   {"page": 1000, "codec": CODECS[(k + ck.seed) % 3], "poff": p0 + 6, "ops": ops_of("a" * k + "w", rr), "reads": [{"mode": "plain"}]}]
+        ck.add("values_tried", 4 * k)
     build_and_run(progs, "c05", timeout=1800, drop=len(progs) > 400)
     ok = progs
     # judge everything, then reduce to one verdict per program
